@@ -212,10 +212,12 @@ def check(col: Collector, tier: str):
         for r in walk_no_nested(bc.node):
             if isinstance(r, ast.Raise):
                 for t, tr in guards(bc.node, r, bpm):
-                    if isinstance(t, ast.Compare) and src(t.left) == "metadata.backend_name" and isinstance(t.ops[0], ast.NotEq) and tr:
+                    if isinstance(t, ast.Compare) and src(t.left) == "metadata.backend_name" and isinstance(t.ops[0], ast.Eq) and not tr:
                         lit = const_str(t.comparators[0])
         rets = [r for r in walk_no_nested(bc.node) if isinstance(r, ast.Return)]
-        after = bool(rets) and all(any(isinstance(x, ast.Raise) and x.lineno < r.lineno for x in walk_no_nested(bc.node)) for r in rets)
+        # every return is reached only when the name matched: it stands under (backend_name == lit, True)
+        after = bool(rets) and all(any(isinstance(t, ast.Compare) and src(t.left) == "metadata.backend_name" and isinstance(t.ops[0], ast.Eq) and tr
+                                       and const_str(t.comparators[0]) == lit for t, tr in guards(bc.node, r, bpm)) for r in rets)
         col.add("C06.R4", f"{exe}.build_collection_callback", "refuses-other-backends", lit == be and after,
                 f"must raise unless metadata.backend_name == {be!r} (found literal {lit!r}) before returning the callback", bc.loc)
         pmf, br = md_branch(repo, mdt)
@@ -304,7 +306,7 @@ def check(col: Collector, tier: str):
         pmf_ = parent_map(f.node)
         adds = [n for n in walk_no_nested(f.node) if isinstance(n, (ast.AugAssign, ast.Call)) and (
             (isinstance(n, ast.AugAssign) and src(n.target) == f"self.{lst}") or (isinstance(n, ast.Call) and call_name(n) == "append" and src(n.func.value) == f"self.{lst}"))]
-        ok = len(adds) == 1 and any(isinstance(t, ast.Compare) and isinstance(t.ops[0], ast.NotIn) and tr and src(t.left) == p0 and src(t.comparators[0]) == f"self.{lst}"
+        ok = len(adds) == 1 and any(isinstance(t, ast.Compare) and isinstance(t.ops[0], ast.In) and not tr and src(t.left) == p0 and src(t.comparators[0]) == f"self.{lst}"
                                     for t, tr in guards(f.node, adds[0], pmf_))
         col.add("C06.R6", f.short, "appended-once-under-not-in", ok, f"{meth} must append {p0} only if it is not already in self.{lst}", f.loc)
     pan = repo.function("process_ast_node")
